@@ -380,6 +380,17 @@ func (r *rig) request(p string) (*http.Request, error) {
 		hdr.Set("Content-Type", "application/xml; charset=utf-8")
 	case "COPY", "MOVE":
 		hdr.Set("Destination", rawURL(joinNames(r.cs.prefixPath(), r.cs.Layout.User, r.cs.Layout.HS, r.cs.Layout.NewColl)))
+	default:
+		// The open method axis: a creation-style body where asked for.
+		if cs.Form == "body" {
+			root := xmltree.El(nsCal, "mkcalendar")
+			if cs.Server == "carddav" {
+				root = xmltree.El(nsCard, "mkaddressbook")
+			}
+			body = xmltree.Render(root.Add(xmltree.El(davx.NS, "set", xmltree.El(davx.NS, "prop",
+				xmltree.El(davx.NS, "displayname", xmltree.Txt("created"))))), nil)
+			hdr.Set("Content-Type", "application/xml; charset=utf-8")
+		}
 	}
 	var req *http.Request
 	var err error
